@@ -123,6 +123,19 @@ def respondBuild (ws : List String) : Option String :=
         let sel := s!"sel:{showOpt s.selFn},{showOpt s.selBlk}"
         "ok " ++ " ".intercalate out.reverse ++ " | " ++ sel ++ " | " ++ showModule (s.finish theBTables)
       | t :: ts =>
+        if t.startsWith "continue:" then
+          -- finish, loosen the bound, `Builder::new_from_module`
+          match (t.drop 9).toString.toNat? with
+          | none => "bad-request"
+          | some slack =>
+            let m := s.finish theBTables
+            match m.header with
+            | none => "bad-request"
+            | some h =>
+              let b := (h.bound + slack) % 4294967296
+              go { module := { m with header := some { h with bound := b } }, nextId := b, selFn := none, selBlk := none }
+                (s!"continued:{b}" :: out) ts
+        else
         match readCall t with
         | none => s!"bad-request {t}"
         | some c =>
